@@ -1,5 +1,8 @@
+mod backend;
 mod codec;
+mod gen;
 mod rng;
+mod sim;
 use std::io::Write;
 
 fn arg(name: &str, default: &str) -> String {
@@ -14,6 +17,16 @@ fn json_str(s: &str) -> String {
     let mut o = String::from("\"");
     for c in s.chars() { match c { '"' => o.push_str("\\\""), '\\' => o.push_str("\\\\"), '\n' => o.push_str("\\n"), c if (c as u32) < 32 => o.push_str(&format!("\\u{:04x}", c as u32)), c => o.push(c) } }
     o.push('"'); o
+}
+
+fn finish(out: &str, o: gen::RunOut) {
+    write_lines(&format!("{out}/ops.txt"), &o.ops);
+    write_lines(&format!("{out}/impl.out"), &o.outs);
+    let fails: Vec<String> = o.failures.iter().take(60).map(|f| format!("{{\"key\":{},\"detail\":{},\"line\":{}}}", json_str(&f.key), json_str(&f.detail), f.line)).collect();
+    let st: Vec<String> = o.stats.iter().map(|(k, v)| format!("{}:{}", json_str(k), v)).collect();
+    let samples: Vec<String> = o.samples.iter().map(|s| json_str(s)).collect();
+    let stats = format!("{{{},\"n_failures\":{},\"failures\":[{}],\"samples\":[{}]}}", st.join(","), o.failures.len(), fails.join(","), samples.join(","));
+    std::fs::write(format!("{out}/stats.json"), stats).unwrap();
 }
 
 fn main() {
@@ -33,6 +46,20 @@ fn main() {
             let stats = format!("{{\"cases\":{},\"distinct\":{},\"prefixes\":{},\"oracle_failures\":{},\"failures\":[{}],\"by_type\":{{{}}}}}",
                 st.cases, st.distinct, st.prefixes, st.oracle_failures.len(), fails.join(","), by.join(","));
             std::fs::write(format!("{out}/stats.json"), stats).unwrap();
+        }
+        "log" | "crash" | "torn" => {
+            let mode = match cmd.as_str() { "log" => gen::Mode::Log, "crash" => gen::Mode::Crash, _ => gen::Mode::Torn };
+            let kind = arg("--kind", "random");
+            let maxops: u64 = arg("--maxops", "30").parse().unwrap();
+            let depth: usize = arg("--depth", "3").parse().unwrap();
+            let big = arg("--big", "0") == "1";
+            let o = if kind == "large" { gen::large_histories(seed, n, mode == gen::Mode::Crash) } else if kind == "random" { gen::random_histories(seed, n, maxops, mode, big) } else { gen::exhaustive_histories(depth, mode, n, seed) };
+            finish(&out, o);
+        }
+        "repl" => {
+            let maxlen: u64 = arg("--maxlen", "20").parse().unwrap();
+            let mode = match arg("--mode", "log").as_str() { "crash" => gen::Mode::Crash, "torn" => gen::Mode::Torn, _ => gen::Mode::Log };
+            finish(&out, gen::replication_histories(seed, n, maxlen, mode));
         }
         _ => { eprintln!("unknown command"); std::process::exit(2); }
     }
